@@ -92,7 +92,8 @@ Section Mplex.
       | [] => (ca, [])
       | (c0 :: _) as l2 =>
         let outl := mplex_data l1 l2 (start_of lookback cycle ca vin vcnt rt first c0) in
-        (match outl with [] => ca | _ => Some (rt, first + len outl, last outl 0) end, outl)
+        (* the last sample is cached, but not of a window that began before sample zero (c107348) *)
+        (match outl with [] => ca | _ => if 0 <=? first then Some (rt, first + len outl, last outl 0) else None end, outl)
       end
     end.
 
@@ -278,6 +279,7 @@ Section Mplex.
     cbn [fst snd]. split; [reflexivity|].
     set (w := window (mplex_val vin vcnt rt) first (Z.to_nat n)) in *.
     destruct w as [|y w'] eqn:Ew; [exact Hinv|].
+    replace (0 <=? first) with true by (symmetry; apply Z.leb_le; exact Hf).
     cbn [CacheInv]. split; [pose proof (len_nonneg (y :: w')); lia|].
     rewrite <- Ew. apply window_last_carry; [exact Hf|]. fold w. rewrite Ew. discriminate.
   Qed.
